@@ -213,6 +213,7 @@ def check(pid, tier, seed, replay=None):
         "exhaustive": False,
         "explanation": spec.get("explanation", ""),
         "notes": notes,
+        "known_findings_seen": sorted(set(known)),
         "repo_tree": key,
     }
     V.write_evidence(pid, tier, seed, spec.get("level", "proof"), cov, spec.get("assumptions", []), time.time() - t0, len(violations))
